@@ -30,6 +30,26 @@ CLAIMED = {
         'runtime fact decided by value comparison.',
    technique='Coq proof of the ring kernels + exact differential testing of the operator layer (Coq model and Fraction reference)',
    design='4/C02'),
+ 'C05': dict(
+   text='Theorems (every commutative ring of values, every well-formed program with buffers/views/in-place writes, every input; closed '
+        'under the global context): recording appends exactly the nodes of the executed operations, numbered in execution order, each '
+        'after its operands (wf_tape of the recorded tape); replaying the recorded tape on ANY input equals running the program directly; '
+        'replay has no hidden state. On every run: values through tracer nodes vs the program on unwrapped operands, replays with unrelated '
+        'inputs (ndarray / UTPM any D,P) vs direct evaluation, nothing recorded while tracing is off, and for rational programs the '
+        'recorded tape (names, argument ids) and replay values against the Coq model Tracer.v exactly.',
+   note=NOTE_COMMON + 'The Coq tracer model covers scalar programs with buffers over + - * / neg pow square reciprocal; array-level operations are covered by the direct predicates only. Python object identity is outside the model.',
+   technique='Coq proof (simulation between recording+replay and direct evaluation) + correspondence of tapes and values + direct predicates',
+   design='4/C05'),
+ 'C06': dict(
+   text='Theorems (every well-formed tape with buffers, every input and seeds): the reverse sweep rolls every in-place write back (value '
+        'heap = initial heap); the repaired sweep re-applies the recorded writes and leaves exactly the state of the forward evaluation; '
+        'hence a sweep after any earlier sweeps equals the sweep on a fresh evaluation; replay depends on tape and inputs only. On every '
+        'run: random call histories (forward evaluations of any kind/D/P, reverse sweeps, six drivers, evaluating and recording other '
+        'graphs, repetitions), every result compared with the same call on a freshly recorded graph, and node values snapshotted around '
+        'every reverse sweep.',
+   note=NOTE_COMMON + 'The oracle of a call is the implementation on a fresh graph (its correctness is C03/C04/C05); user-object aliasing is outside the model.',
+   technique='Coq proof (heap rollback/rollforward invariants over the tape) + history differential testing against fresh graphs',
+   design='4/C06'),
  'C07': dict(
    text='Theorems (every field, every D, sizes, closed under the global context): the matrix kernels are written once over abstract '
         'operations; instantiated with mathcomp matrices they satisfy X(t)Y(t) Cauchy product, A(t) inv(A)(t) = I = inv(A)(t) A(t) (over any '
@@ -52,6 +72,16 @@ CLAIMED = {
    note=NOTE_COMMON + 'qr (rectangular), qr_full, eigh, eig and svd have no Coq model: their defining equations are validated per case (not a proof); LAPACK base factorizations are inputs.',
    technique='Coq proof of the lifting steps over mathcomp matrices (kernels shared with the executable list-matrix instance) + correspondence + exact residual predicates',
    design='4/C08'),
+ 'C09': dict(
+   text='Theorems (every N, every field with 2 != 0): the N(N+1)/2 seed directions of init_hessian are e_n and e_n+e_m at the modelled '
+        'indices, and extract_hessian / extract_hess_vec / extract_jacobian applied to the second/first-order coefficients of any quadratic/'
+        'linear form return H, Hv, g exactly (triangular index arithmetic for all N). Tensor extraction rests on the bounded interpolation '
+        'identity of C15. On every run: seeds and extraction formulas against the Coq model exactly; integer polynomial programs at integer '
+        'points against analytic derivatives from exact multivariate polynomial arithmetic (all drivers incl. tensors d<=3/4, tolerance 0 '
+        'where float64 is exact, also with an integer-dtype seed); smooth programs: mutual consistency of all drivers.',
+   note=NOTE_COMMON + 'That coefficient d along x+ts is the d-th directional derivative/d! is C01/C12 (chain rule, not re-proved here); tensor identity bounded N<=4,d<=5.',
+   technique='Coq proof (index arithmetic of seeds/extraction for all N) + exact polynomial oracle + correspondence',
+   design='4/C09'),
  'C10': dict(
    text='Theorems: for every model kernel the zeroth coefficient of the result is the base operation applied to the zeroth coefficients '
         '(ring operation, or the base value handed in from NumPy/SciPy), and result shapes are NumPy broadcast shapes. NumPy itself is the '
@@ -109,6 +139,17 @@ CLAIMED = {
    note=NOTE_COMMON + 'Unbounded Gamma identity not proved (bounded N<=4,d<=5).',
    technique='Coq proof (induction; bounded reflection) + model/implementation correspondence by vm_compute',
    design='4/C15'),
+ 'C16': dict(
+   text='Theorems (Coq reals + Coquelicot; all n, all points of the declared domain): for exp, exp2, expm1, log, log2, log10, log1p, sqrt, '
+        'square, negative, reciprocal, sin, cos, sinh, cosh, arctanh the closed form of order n+1 is the derivative of the closed form of '
+        'order n and order 0 is the function, hence the closed form IS the n-th derivative (nth_derivative_of_chain). On every run the '
+        'real-valued model is evaluated inside Coq by certified interval arithmetic at the points where the implementation is run '
+        '(|model - implementation| <= 1e-9 relative proved per case), and every exported function (also erf, erfi, arcsin, arccos, arctan, '
+        'arcsinh, arccosh, gammaln, psi, polygamma, hyperu, piecewise ones) is compared with mpmath numerical differentiation at 50 digits.',
+   note='Axioms: ClassicalDedekindReals.sig_forall_dec, sig_not_dec, FunctionalExtensionality.functional_extensionality_dep, Classical_Prop.classic (standard library reals / Coquelicot). '
+        'Functions without a Coq model (erf family, inverse trigonometric/hyperbolic, gamma family, hyperu) are decided against mpmath only; tan/tanh need mpmath inside the repository interpreter and are outside the property list.',
+   technique='Coq proof over the reals (Coquelicot is_derive) + certified interval evaluation of the model per case + mpmath oracle',
+   design='4/C16'),
  'C17': dict(
    text='Theorems (all N, all shapes/values unless a bound is stated): applying the row interchanges of a pivot vector = indexing with '
         'piv2swap; piv2swap is a permutation; piv2mat^T A is A after the interchanges; det(piv2mat piv) (mathcomp determinant) = piv2det piv; '
